@@ -170,6 +170,7 @@ type HarnessSpec struct {
 	FeasSecs  int // budget (seconds) for solver feasibility queries during symbolic execution (default 40)
 	HookLimit int // how many times vOnBlock may run at one blocking point
 	QuickSolve bool // thorough tier: this harness is inherited from the quick list and keeps the quick solver settings
+	UTF8Range bool // range over string: decode UTF-8 with symbolic offsets (default: ASCII only, a non-ASCII byte is a "limit" obligation)
 	NoDedupe  bool // map range: do not de-duplicate keys (only for idempotent set-algebra loops, stated as a cut)
 	Solvers   []string
 	CaseGen   func() []map[string]int64 `json:"-"` // case split given as an explicit list (alternative to Split)
@@ -261,6 +262,7 @@ func newEngine(l *loaded, hs HarnessSpec) *Engine {
 	}
 	e.goQueue = hs.GoQueue
 	e.rangeNoDedupe = hs.NoDedupe
+	e.rangeUTF8 = hs.UTF8Range
 	e.feasBudget = 40
 	if hs.FeasSecs > 0 {
 		e.feasBudget = float64(hs.FeasSecs)
